@@ -1,0 +1,217 @@
+//go:build verif
+// +build verif
+
+// Verification hook H3c (add-only, compiled only with -tags verif): builds a SignParty exactly as
+// Processor.loadOrNewSignParty does, lets a harness complete round0 with injected headers and group
+// (instead of the proposer / VRF / group-selection / block-execution checks of
+// round0.afterPreArrived and checkBlock, which need a booted chain), and exposes what round1
+// collected. All messages are driven through the unmodified baseParty.Update.
+// No behaviour of existing code paths changes.
+package logical
+
+import (
+	"sort"
+	"strconv"
+	"sync"
+
+	"com.tuntun.rangers/node/src/common"
+	"com.tuntun.rangers/node/src/consensus/access"
+	"com.tuntun.rangers/node/src/consensus/groupsig"
+	"com.tuntun.rangers/node/src/consensus/model"
+	"com.tuntun.rangers/node/src/consensus/net"
+	"com.tuntun.rangers/node/src/core"
+	"com.tuntun.rangers/node/src/middleware/log"
+	"com.tuntun.rangers/node/src/middleware/types"
+)
+
+// VerifC15Party is one SignParty (one proposed block on one verifier node).
+type VerifC15Party struct {
+	p    *SignParty
+	r0   *round0
+	last *round1
+}
+
+// verifC15Nop is a message no round accepts (CanAccept returns -1); baseParty.Update then only
+// runs its advance loop. Used to advance after round0 has been completed by FinishRound0.
+type verifC15Nop struct{}
+
+func (verifC15Nop) GenHash() common.Hash { return common.Hash{} }
+func (verifC15Nop) GetMessageID() string { return "verif-c15-nop" }
+
+// VerifC15NewParty is the SignParty literal of Processor.loadOrNewSignParty followed by Start()
+// (round0 installed and started). Verify messages fed through Update before FinishRound0 are stored
+// as future messages, as they are while the node still checks the proposal.
+func VerifC15NewParty(self groupsig.ID, chain core.BlockChain, ns net.NetworkServer, belong *access.JoinedGroupStorage, key string) *VerifC15Party {
+	party := &SignParty{belongGroups: belong, blockchain: chain,
+		mi: self, netServer: ns,
+		baseParty: baseParty{
+			logger:         log.GetLoggerByIndex(log.CLogConfig, strconv.Itoa(common.InstanceIndex)),
+			mtx:            sync.Mutex{},
+			futureMessages: make(map[string]model.ConsensusMessage),
+			Done:           make(chan byte, 1),
+			Err:            make(chan error, 1),
+			id:             key,
+		},
+	}
+	if err := party.Start(); err != nil {
+		return nil
+	}
+	r0, ok := party.round().(*round0)
+	if !ok {
+		return nil
+	}
+	return &VerifC15Party{p: party, r0: r0}
+}
+
+// FinishRound0 puts round0 into the state round0.checkBlock leaves it in when the proposal passed
+// all checks (bh, preBH, group set, party re-keyed to the block hash, canProcessed) and then does
+// the first iteration of baseParty.Update's advance loop itself (advance() -> round1.Start(), an
+// error goes to p.Err), only to keep a pointer to the round1 object; the rest of the loop runs in
+// the unmodified baseParty.Update (driven by a message no round accepts). round1.Start processes
+// the stored future messages. sendOwnPiece additionally runs round0.normalPieceVerify (the member's
+// own share goes to netServer.SendVerifiedCast).
+func (v *VerifC15Party) FinishRound0(bh, preBH *types.BlockHeader, group *model.GroupInfo, sendOwnPiece bool) {
+	v.p.lock()
+	r := v.r0
+	r.bh, r.preBH, r.group = bh, preBH, group
+	if sendOwnPiece {
+		r.normalPieceVerify()
+	}
+	r.partyId = bh.Hash.String()
+	v.p.id = r.partyId
+	r.canProcessed = true
+	failed := false
+	func() {
+		defer v.p.unlock()
+		v.p.advance()
+		v.last, _ = v.p.rnd.(*round1)
+		if err := v.p.round().Start(); err != nil {
+			v.p.Err <- err
+			failed = true
+		}
+	}()
+	if !failed {
+		v.p.Update(verifC15Nop{})
+	}
+}
+
+// Update is the unmodified baseParty.Update (lock, recover, CanAccept, round.Update, advance loop).
+func (v *VerifC15Party) Update(msg model.ConsensusMessage) { v.p.Update(msg) }
+
+// RoundNumber is the party's current round number, -1 when the party has ended.
+func (v *VerifC15Party) RoundNumber() int {
+	v.p.lock()
+	defer v.p.unlock()
+	if v.p.rnd == nil {
+		return -1
+	}
+	return v.p.rnd.RoundNumber()
+}
+
+func (v *VerifC15Party) round1() *round1 {
+	switch r := v.p.rnd.(type) {
+	case *round1:
+		return r
+	case *round2:
+		return r.round1
+	}
+	return nil
+}
+
+// Round1CanProceed reports whether round1 has been created and has set canProcessed
+// (false while the party is still in round0).
+func (v *VerifC15Party) Round1CanProceed() bool {
+	v.p.lock()
+	defer v.p.unlock()
+	if _, in0 := v.p.rnd.(*round0); in0 {
+		return false
+	}
+	return v.r0.canProcessed
+}
+
+func verifC15Shares(g *groupSignGenerator) map[string][]byte {
+	out := map[string][]byte{}
+	if g == nil {
+		return out
+	}
+	for id, s := range g.witnessSignMap {
+		out[id] = append([]byte{}, s.Serialize()...)
+	}
+	return out
+}
+
+// r1 stays reachable after the party ended (p.rnd == nil): remembered when first seen.
+func (v *VerifC15Party) r1() *round1 {
+	if r := v.round1(); r != nil {
+		v.last = r
+	}
+	return v.last
+}
+
+// BlockShares / BeaconShares: member id (hex) -> serialized share currently held by round1's
+// gSignGenerator / rSignGenerator witness maps.
+func (v *VerifC15Party) BlockShares() map[string][]byte {
+	v.p.lock()
+	defer v.p.unlock()
+	if r := v.r1(); r != nil {
+		return verifC15Shares(r.gSignGenerator)
+	}
+	return map[string][]byte{}
+}
+
+func (v *VerifC15Party) BeaconShares() map[string][]byte {
+	v.p.lock()
+	defer v.p.unlock()
+	if r := v.r1(); r != nil {
+		return verifC15Shares(r.rSignGenerator)
+	}
+	return map[string][]byte{}
+}
+
+// ShareIDs is the sorted key list of a share map.
+func VerifC15ShareIDs(m map[string][]byte) []string {
+	ids := make([]string, 0, len(m))
+	for id := range m {
+		ids = append(ids, id)
+	}
+	sort.Strings(ids)
+	return ids
+}
+
+// CheckSignature is round2.checkSignature(group) on the party's header: "" when it returns nil,
+// the error text otherwise.
+func (v *VerifC15Party) CheckSignature() string {
+	v.p.lock()
+	defer v.p.unlock()
+	r := v.r1()
+	if r == nil {
+		return "round1 not reached"
+	}
+	if err := (&round2{round1: r}).checkSignature(v.r0.group); err != nil {
+		return err.Error()
+	}
+	return ""
+}
+
+// Drain empties the party's Done / Err channels without blocking (Processor.waitUntilDone reads
+// them in the node; both have capacity 1).
+func (v *VerifC15Party) Drain() (done bool, errText string) {
+	select {
+	case <-v.p.Done:
+		done = true
+	default:
+	}
+	select {
+	case e := <-v.p.Err:
+		if e != nil {
+			errText = e.Error()
+		} else {
+			errText = "nil error sent"
+		}
+	default:
+	}
+	return
+}
+
+// FutureMessageCount is the number of messages stored for a later round.
+func (v *VerifC15Party) FutureMessageCount() int { return len(v.p.GetFutureMessage()) }
